@@ -145,7 +145,10 @@ func seenHeaders(c *fiber.Ctx) []kv {
 
 // ---------------------------------------------------------------- cluster under test
 
-type nodeSpec struct{ id, role, ws, state string }
+type nodeSpec struct {
+	id, role, ws, state string
+	gone                bool // sequence cases: currently not in the registry (unregistered)
+}
 
 func (n nodeSpec) String() string {
 	return n.id + ":" + tok(n.role) + ":" + tok(n.ws) + ":" + tok(n.state)
@@ -184,6 +187,7 @@ type env struct {
 	visits   []visit
 	captures []capture
 	e2eMode  bool
+	history  []string // sequence cases: registry contents / requests so far on the long-lived router
 	tmp      string
 	db       *database.DuckDB
 	buf      *ingest.ArrowBuffer
@@ -245,11 +249,20 @@ func (e *env) setCluster(specs []nodeSpec) {
 	for range specs {
 		e.routers = append(e.routers, nil)
 	}
+	e.history = e.history[:0]
+	e.emitCfg()
+}
+
+// emitCfg writes the registry content AS IT IS NOW (unregistered nodes left out; node 0 never leaves).
+func (e *env) emitCfg() {
 	var parts []string
-	for _, s := range specs {
-		parts = append(parts, s.String())
+	for _, s := range e.specs {
+		if !s.gone {
+			parts = append(parts, s.String())
+		}
 	}
-	e.c.Op("cfg "+strings.Join(parts, " "), fmt.Sprintf("ok n=%d", len(specs)))
+	e.c.Op("cfg "+strings.Join(parts, " "), fmt.Sprintf("ok n=%d", len(parts)))
+	e.history = append(e.history, "registry ["+strings.Join(parts, " ")+"]")
 }
 
 func (e *env) router(i int) *cluster.Router {
@@ -316,11 +329,16 @@ func canServe(role string, isWrite bool) bool {
 func (e *env) replay(o obs) string {
 	var parts []string
 	for _, s := range e.specs {
-		parts = append(parts, s.String())
+		if !s.gone {
+			parts = append(parts, s.String())
+		}
 	}
 	wq := "q"
 	if o.isWrite {
 		wq = "w"
+	}
+	if len(e.history) > 1 {
+		return fmt.Sprintf("ONE long-lived Router on node %d; sequence: %s ; then %s request via %s (router=%v) with headers%s -> %s (current registry [%s])", o.slot, strings.Join(e.history, " ; "), wq, o.src, o.router, hdrFields(o.seen), o.kind, strings.Join(parts, " "))
 	}
 	return fmt.Sprintf("cluster [%s]; %s request via %s handled at node %d (router=%v, ip=%s, host=%s) with headers%s -> %s", strings.Join(parts, " "), wq, o.src, o.slot, o.router, o.ip, o.host, hdrFields(o.seen), o.kind)
 }
@@ -385,6 +403,9 @@ func (e *env) record(o obs) {
 		if t.state != e.f.healthy {
 			c.Fail("target-unhealthy:"+o.src, fmt.Sprintf("request forwarded to node %s in state %q", t.id, t.state), e.replay(o))
 		}
+		if t.gone {
+			c.Fail("target-unregistered:"+o.src, fmt.Sprintf("request forwarded to node %s, which is not in the forwarding node's registry at request time", t.id), e.replay(o))
+		}
 		if o.to == o.slot {
 			c.Fail("forward-to-self:"+o.src, "request forwarded to the forwarding node itself", e.replay(o))
 		}
@@ -393,7 +414,7 @@ func (e *env) record(o obs) {
 		// is there a peer the router is documented to target?
 		targetable, capablePeer := false, false
 		for i, s := range e.specs {
-			if i == o.slot || s.state != e.f.healthy {
+			if i == o.slot || s.state != e.f.healthy || s.gone {
 				continue
 			}
 			if canServe(s.role, o.isWrite) {
@@ -540,6 +561,156 @@ func (e *env) fnChain(entry int, router bool, rq reqSpec) {
 		slot, rt = o.to, true
 	}
 	e.chainMonitors("fn", chain)
+}
+
+// ---------------------------------------------------------------- sequences on a long-lived router
+
+// registry mutations through the real API (the *cluster.Node objects in e.nodes are the registry's own records)
+func (e *env) mutHealth(j int, state string) {
+	e.reg.UpdateNodeState(e.specs[j].id, cluster.NodeState(state))
+	e.specs[j].state = state
+}
+func (e *env) mutWriterState(j int, ws string) {
+	e.nodes[j].SetWriterState(cluster.WriterState(ws))
+	e.specs[j].ws = ws
+}
+func (e *env) mutUnregister(j int) {
+	e.reg.Unregister(e.specs[j].id)
+	e.specs[j].gone = true
+}
+func (e *env) mutRegister(j int) { // a fresh record for the same id (what a re-join does)
+	s := e.specs[j]
+	n := cluster.NewNode(s.id, s.id, cluster.NodeRole(s.role), "verif")
+	n.APIAddress = addrOf(j)
+	n.State = cluster.NodeState(s.state)
+	n.WriterSt = cluster.WriterState(s.ws)
+	e.nodes[j] = n
+	if err := e.reg.Register(n); err != nil {
+		panic(err)
+	}
+	e.specs[j].gone = false
+}
+
+// seqRequests: one write and one query at node 0 through its long-lived router (function level), plus the
+// same write through the real msgpack handler when the e2e apps exist.
+func (e *env) seqRequests(hs []kv) {
+	for _, w := range []bool{true, false} {
+		o := e.fnInvoke(0, true, reqSpec{isWrite: w, hdrs: hs, remote: clientAddr, host: "client-facing.example:8000"})
+		o.src = "seq"
+		e.record(o)
+		wq := "q"
+		if w {
+			wq = "w"
+		}
+		e.history = append(e.history, wq+" -> "+o.kind+func() string {
+			if o.kind == "forward" {
+				return " to " + e.specs[o.to].id
+			}
+			return ""
+		}())
+		e.c.Tag("seq:" + o.kind)
+	}
+}
+
+func (e *env) seqCases(r *vh.Rand) {
+	f := e.f
+	H, U := f.healthy, "unhealthy"
+	type mut func()
+	script := func(sp []nodeSpec, steps ...mut) {
+		e.setCluster(withIDs(sp))
+		e.router(0) // the one Router instance all requests of this sequence go through
+		e.seqRequests(nil)
+		for _, m := range steps {
+			m()
+			e.emitCfg()
+			e.regOp()
+			e.seqRequests(nil)
+			e.seqRequests(nil) // twice: the call after the first post-change call must not differ either
+		}
+		var parts []string
+		for _, s := range e.history {
+			parts = append(parts, s)
+		}
+		e.c.Case("seq "+strings.Join(parts, ";"), true)
+	}
+	for _, entry := range []string{"reader", "compactor"} {
+		// primary fails, standby promoted
+		script([]nodeSpec{{role: entry, state: H}, {role: "writer", ws: f.primary, state: H}, {role: "writer", ws: "standby", state: H}},
+			func() { e.mutHealth(1, U); e.mutWriterState(1, "standby"); e.mutWriterState(2, f.primary) },
+			func() { e.mutUnregister(1) },
+			func() { e.mutRegister(1); e.mutHealth(1, H) },
+			func() { e.mutWriterState(2, "standby"); e.mutWriterState(1, f.primary) })
+		// primary only turns unhealthy (no promotion yet): round-robin over the remaining healthy writers
+		script([]nodeSpec{{role: entry, state: H}, {role: "writer", ws: f.primary, state: H}, {role: "writer", ws: "standby", state: H}, {role: "reader", state: H}},
+			func() { e.mutHealth(1, U) },
+			func() { e.mutHealth(1, "dead") },
+			func() { e.mutHealth(2, U) },
+			func() { e.mutHealth(1, H) })
+		// primary demoted while healthy; primary unregistered while still primary+healthy
+		script([]nodeSpec{{role: entry, state: H}, {role: "writer", ws: f.primary, state: H}, {role: "writer", ws: "", state: H}},
+			func() { e.mutWriterState(1, "standby"); e.mutWriterState(2, f.primary) },
+			func() { e.mutUnregister(2) },
+			func() { e.mutUnregister(1) },
+			func() { e.mutRegister(2) })
+		// readers come and go (query side)
+		script([]nodeSpec{{role: entry, state: H}, {role: "reader", state: H}, {role: "reader", state: H}, {role: "writer", ws: f.primary, state: H}},
+			func() { e.mutHealth(1, U) },
+			func() { e.mutUnregister(2) },
+			func() { e.mutHealth(3, U) },
+			func() { e.mutRegister(2); e.mutHealth(1, H) })
+	}
+	// random sequences
+	n := 150
+	if e.c.Thorough() {
+		n = 3000
+	}
+	types := e.nodeTypes()
+	for i := 0; i < n; i++ {
+		k := r.Range(2, 4)
+		sp := []nodeSpec{{role: vh.Pick(r, []string{"reader", "compactor", "reader", "compactor", "writer", "standalone"}), state: H}}
+		for j := 1; j < k; j++ {
+			t := vh.Pick(r, types)
+			if r.Chance(60) {
+				t.role = "writer"
+			}
+			sp = append(sp, t)
+		}
+		e.setCluster(withIDs(sp))
+		e.router(0)
+		e.seqRequests(nil)
+		for st, m := 0, r.Range(2, 6); st < m; st++ {
+			j := r.Range(1, k-1)
+			switch {
+			case e.specs[j].gone:
+				e.mutRegister(j)
+			default:
+				switch r.Intn(5) {
+				case 0:
+					e.mutHealth(j, vh.Pick(r, []string{H, U, "dead", "joining"}))
+				case 1:
+					e.mutWriterState(j, vh.Pick(r, f.wstates))
+				case 2:
+					e.mutUnregister(j)
+				case 3: // failover: demote every primary, promote j
+					for q := 1; q < k; q++ {
+						if e.specs[q].ws == f.primary && !e.specs[q].gone {
+							e.mutWriterState(q, "standby")
+						}
+					}
+					e.mutWriterState(j, f.primary)
+					e.mutHealth(j, H)
+				case 4:
+					e.mutHealth(j, U)
+				}
+			}
+			e.emitCfg()
+			if r.Chance(30) {
+				e.regOp()
+			}
+			e.seqRequests(nil)
+		}
+		e.c.Case("seq "+strings.Join(e.history, ";"), true)
+	}
 }
 
 // ---------------------------------------------------------------- e2e through the real fiber handlers
@@ -746,7 +917,7 @@ func (e *env) probeRoutes() {
 			if canServe(role, isWrite) {
 				continue
 			}
-			e.setCluster([]nodeSpec{{"n0", role, "", e.f.healthy}, {"n1", "reader", "", e.f.healthy}, {"n2", "writer", e.f.primary, e.f.healthy}})
+			e.setCluster([]nodeSpec{{id: "n0", role: role, state: e.f.healthy}, {id: "n1", role: "reader", state: e.f.healthy}, {id: "n2", role: "writer", ws: e.f.primary, state: e.f.healthy}})
 			e.wire([]bool{true, true, true, true})
 			e.visits = e.visits[:0]
 			e.captures = e.captures[:0]
@@ -859,7 +1030,7 @@ func (e *env) nodeTypes() []nodeSpec {
 	for _, r := range e.f.roles {
 		for _, ws := range e.f.wstates {
 			for _, st := range []string{e.f.healthy, "unhealthy"} {
-				ts = append(ts, nodeSpec{"", r, ws, st})
+				ts = append(ts, nodeSpec{"", r, ws, st, false})
 			}
 		}
 	}
@@ -978,7 +1149,7 @@ func main() {
 	}
 
 	// (C) BuildHTTPRequest + doForward header maps on a fixed reader -> writer pair
-	e.setCluster([]nodeSpec{{"n0", "reader", "", f.healthy}, {"n1", "writer", f.primary, f.healthy}})
+	e.setCluster([]nodeSpec{{id: "n0", role: "reader", state: f.healthy}, {id: "n1", role: "writer", ws: f.primary, state: f.healthy}})
 	fwd := func(hs []kv) {
 		o := e.fnInvoke(0, true, reqSpec{isWrite: true, hdrs: hs, remote: clientAddr, host: "client-facing.example:8000"})
 		if o.marker != "" || o.kind != "forward" {
@@ -1059,10 +1230,16 @@ func main() {
 		n := r.Range(1, 4)
 		var sp []nodeSpec
 		for j := 0; j < n; j++ {
-			sp = append(sp, nodeSpec{"", vh.Pick(r, oddRoles), vh.Pick(r, oddWS), vh.Pick(r, f.states)})
+			sp = append(sp, nodeSpec{role: vh.Pick(r, oddRoles), ws: vh.Pick(r, oddWS), state: vh.Pick(r, f.states)})
 		}
 		e.fnConfig(withIDs(sp), vq)
 	}
+
+	// (D2) SEQUENCES on one long-lived Router: request, change the registry (health flip, demote/promote,
+	// unregister/re-register), request again.  The model is stateless — every answer must be admissible for
+	// the registry content AT REQUEST TIME — so a router that remembers an earlier target shows up both as a
+	// model mismatch and through the target-* monitors.
+	e.seqCases(r)
 
 	// (E) the same property observed end to end through the real fiber handlers
 	e.initE2E()
@@ -1113,7 +1290,7 @@ func main() {
 		e2eCfg(withIDs(sp), vq, mainEPs)
 	}
 	// peers without a router (a forwarded request reaching a node whose handlers have none)
-	e.setCluster(withIDs([]nodeSpec{{"", "reader", "", f.healthy}, {"", "writer", "", f.healthy}}))
+	e.setCluster(withIDs([]nodeSpec{{role: "reader", state: f.healthy}, {role: "writer", state: f.healthy}}))
 	for _, ep := range mainEPs {
 		e.e2eRun(ep, 0, []bool{true, false}, nil)
 	}
